@@ -198,8 +198,11 @@ Fixpoint grun (g : gstate) (h : list gop) : list gev * gstate :=
 Definition gtrace (h : list gop) : list gev := fst (grun gstate0 h).
 
 (* ---------- client ---------- *)
-Record client := { c_recv : option N; c_closing : bool; c_ctl : list N; c_dead : bool; c_next : N }.
-Definition client0 : client := {| c_recv := None; c_closing := false; c_ctl := []; c_dead := false; c_next := 0 |}.
+Record client := { c_recv : option N; c_closing : bool; c_ctl : list N; c_dead : bool; c_next : N;
+                   c_credit : N;      (* transport: bidi streams we may still open *)
+                   c_parked : bool }. (* a send_request future is suspended in poll_open_bidi *)
+Definition client0 : client :=
+  {| c_recv := None; c_closing := false; c_ctl := []; c_dead := false; c_next := 0; c_credit := 100; c_parked := false |}.
 
 (* poll_close over the queued GOAWAY frames: recv_closing, closing flag, error *)
 Fixpoint client_goaways (recv : option N) (closing : bool) (ids : list N) : option N * bool * option N :=
@@ -215,21 +218,37 @@ Fixpoint client_goaways (recv : option N) (closing : bool) (ids : list N) : opti
       else client_goaways recv closing r
   end.
 
+Definition cl_drive (c : client) (recv : option N) (closing : bool) (dead : bool) : client :=
+  {| c_recv := recv; c_closing := closing; c_ctl := []; c_dead := dead; c_next := c_next c;
+     c_credit := c_credit c; c_parked := c_parked c |}.
+Definition cl_stream (c : client) (next credit : N) (parked : bool) : client :=
+  {| c_recv := c_recv c; c_closing := c_closing c; c_ctl := c_ctl c; c_dead := c_dead c; c_next := next;
+     c_credit := credit; c_parked := parked |}.
+
+(* SendRequest::send_request, one poll: the closing test before the await on poll_open_bidi (skipped by a
+   future that is already suspended there), poll_open_bidi, the closing test after it (reset of the fresh stream) *)
+Definition send_request_poll (c : client) : list cev * client :=
+  let closing := closing_test_reads_flag && c_closing c in
+  if negb (c_parked c) && closing_test_first && closing then ([CRequest; CReqClosing], c)
+  else if c_credit c =? 0 then ([CRequest; CReqParked], cl_stream c (c_next c) 0 true)
+  else if closing_retest_after_open && closing
+       then ([CRequest; CReqCancelled (c_next c) closing_retest_reset_code], cl_stream c (c_next c + 4) (c_credit c - 1) false)
+       else ([CRequest; CReqOpened (c_next c)], cl_stream c (c_next c + 4) (c_credit c - 1) false).
+
 Definition cstep (c : client) (o : cop) : list cev * client :=
   if c_dead c then ([], c) else
   match o with
   | KGoaway id => ([CGoaway id], {| c_recv := c_recv c; c_closing := c_closing c; c_ctl := c_ctl c ++ [id];
-                                    c_dead := false; c_next := c_next c |})
+                                    c_dead := false; c_next := c_next c; c_credit := c_credit c; c_parked := c_parked c |})
   | KDrive =>
       let '(recv', closing', err) := client_goaways (c_recv c) (c_closing c) (c_ctl c) in
       match err with
-      | Some e => ([CDrive; CDriveErr e], {| c_recv := recv'; c_closing := closing'; c_ctl := []; c_dead := true; c_next := c_next c |})
-      | None => ([CDrive; CDriveIdle], {| c_recv := recv'; c_closing := closing'; c_ctl := []; c_dead := false; c_next := c_next c |})
+      | Some e => ([CDrive; CDriveErr e], cl_drive c recv' closing' true)
+      | None => ([CDrive; CDriveIdle], cl_drive c recv' closing' false)
       end
-  | KRequest =>
-      if closing_test_first && closing_test_reads_flag && c_closing c then ([CRequest; CReqClosing], c)
-      else ([CRequest; CReqOpened (c_next c)],
-            {| c_recv := c_recv c; c_closing := c_closing c; c_ctl := c_ctl c; c_dead := false; c_next := c_next c + 4 |})
+  | KStarve => ([CStarve], cl_stream c (c_next c) 0 (c_parked c))
+  | KGrant n => ([CGrant n], cl_stream c (c_next c) (c_credit c + n) (c_parked c))
+  | KRequest => send_request_poll c
   end.
 
 Fixpoint crun (c : client) (h : list cop) : list cev :=
